@@ -40,6 +40,7 @@ def run(ck, fb):
     r02g(ck, fb)
     r02h(ck, fb)
     r02i(ck, fb)
+    ck.borrow('rules.c03', {'R03b': 'R02j', 'R03g': 'R02k'}, 'a truncation that leaves wrong cursors / keeps the suffix breaks the reopened log')
 
 
 def r02a(ck, fb):
@@ -83,6 +84,46 @@ def r02a(ck, fb):
                        '(1..4 bytes): after a truncation across an index entry index_cursor is rewound by the wrong number of bytes '
                        'and the index area is corrupt on reopen', 'sizes a file-offset delta')
     ck.floor('R02a', 'inner_sizeof_varint sites that move the index cursor', n, 2)
+    # the rewinder sizes the delta between ADJACENT entries (that is what write() stored): the reference entry is loop-carried
+    b = ck.body(LIM + 'get_file_index_by_log_index', 'R02a')
+    if b:
+        from rn.facts import op_place, pl_local, pl_proj
+        nx = b.calls(r'Iterator>::next$')
+        it = Taint(b, call_src=lambda t: (t.get('f') or {}).get('d', '').endswith('Iterator::next'))
+        for s in b.calls(r'protobuf_utils::inner_sizeof_varint$'):
+            # locals whose .file_index feeds the sized value
+            bases = set()
+            seen = set()
+
+            def walk(op, depth=0):
+                pl = op_place(op)
+                if pl is None or depth > 8:
+                    return
+                l = pl_local(pl)
+                fs = [e.get('f') for e in pl_proj(pl) if isinstance(e, dict) and 'f' in e]
+                if 'file_index' in fs:
+                    bases.add(l)
+                    return
+                if l in seen:
+                    return
+                seen.add(l)
+                for kind, bb, j, node in b.defs.get(l, []):
+                    if kind == 'stmt':
+                        for o in rv_operands(node['rv']):
+                            walk(o, depth + 1)
+            walk(s.args[0])
+            prev = [l for l in bases if not it.op_tainted({'cp': {'l': l, 'p': []}}) or len(b.defs.get(l, [])) > 1]
+            carried = True
+            for l in prev:
+                defs = b.defs.get(l, [])
+                inloop = [d for d in defs if d[1] in cfg.reach_from(b, [s.bb]) and s.bb in cfg.reach_from(b, [d[1]])]
+                if not inloop:
+                    carried = False
+            ck.require(len(bases) >= 2 and carried, 'R02a', 'get_file_index_by_log_index:adjacent-delta', s.where(),
+                       'the popped index entries are sized against a fixed reference entry instead of their neighbour: write() stores each entry as '
+                       'the varint of the offset delta to the PREVIOUS entry, so the reference must advance with the loop (two deltas that each fit '
+                       '2 bytes can sum to a 3-byte value: index_cursor is rewound one byte too far and the last kept entry is damaged)',
+                       'reference entry advances with the loop')
 
 
 def r02c(ck, fb):
